@@ -464,7 +464,7 @@ class Built:
 _MISSING = [re.compile(r"fatal error: ([^\s:]+): No such file or directory"),
             re.compile(r"No such file or directory: '([^']+)'"),
             re.compile(r"([^\s:'\"]+): No such file or directory"),
-            re.compile(r"/bin/sh: \d+: ([^\s:]+): not found"),
+            re.compile(r"/bin/sh: \d+: ([^\s:]+): (?:not found|Text file busy|Permission denied|Exec format error)"),
             re.compile(r"error while loading shared libraries: ([^\s:]+):"),
             re.compile(r"cannot find ([^\s:]+)"),
             re.compile(r"cannot open ([^\s:]+)"),
@@ -883,7 +883,12 @@ DIRECTED: T.List[T.Tuple[T.List[str], T.Dict[str, T.Any]]] = [
     # generated source including a generated header, unity build with generated sources
     (['gensrc_inc', 'generator'], {'gensrc_inc.generator': False, 'generator.source': True, 'unity': True,
                                    'generator.depends': 'none'}),
-    (['preprocess', 'pch', 'configure_mix'], {'unity': False}),
+    (['preprocess', 'pch', 'configure_mix'], {'unity': False, 'preprocess.suffix': 'h'}),
+    # included generated files that are neither header nor source by suffix (.inc / .tbl): preprocess(depends:),
+    # custom_target in sources, end of a custom-target chain
+    (['preprocess', 'ct_header'], {'preprocess.suffix': 'inc', 'ct_header.variant': 'plain', 'ct_header.suffix': 'tbl',
+                                   'unity': False}),
+    (['ct_chain', 'preprocess'], {'ct_chain.suffix': 'inc', 'preprocess.suffix': 'tbl', 'unity': False}),
     # chain of static libraries: the executable's link needs the transitive archives
     (['libs'], {'libs.kind': 'static_library', 'libs.how': 'link_with', 'default_library': 'static'}),
     # the code generator is found through meson.override_find_program() (LocalProgram)
@@ -902,6 +907,9 @@ DIRECTED: T.List[T.Tuple[T.List[str], T.Dict[str, T.Any]]] = [
                      'generator.depends': 'none', 'generator.rely': False, 'unity': False}),
     # two captured outputs with the same stem in one directory
     (['ct_header'], {'ct_header.variant': 'capture-pair'}),
+    # generator whose program is built by the project AND that is run with process(depends:) / generator(depends:)
+    (['built_tool'], {'built_tool.generator': True, 'built_tool.gen_depends': 'process', 'built_tool.override': False}),
+    (['built_tool', 'ct_chain'], {'built_tool.generator': True, 'built_tool.gen_depends': 'generator', 'built_tool.override': True}),
     (['subproject', 'genlist_chain'], {'genlist_chain.ct': True, 'genlist_chain.nested': True}),
     (['generator', 'ct_object', 'ct_header'], {'generator.depends': 'process', 'ct_object.how': 'archive',
                                                'ct_header.variant': 'index'}),
@@ -1038,7 +1046,7 @@ def main() -> int:
     if st_problems:
         chk.inconclusive.append('strace parser self-test failed: ' + '; '.join(st_problems)[:400])
     quick = chk.tier == 'quick'
-    nproj = 30 if quick else 300
+    nproj = 34 if quick else 300
     nsched = 6 if quick else 20
     budget = float(os.environ.get('VERIF_C05_BUDGET', '0')) or (150.0 if quick else 1080.0)
     deadline = chk.t0 + budget
